@@ -211,6 +211,9 @@ pub struct ArgList {
     pub named: usize,
     pub params: usize,
     pub required: usize,
+    /// spans whose removal cuts the positional arguments down to the first k (k >= 1) and leaves a parameter
+    /// without default unbound (also one that is declared after a parameter with a default)
+    pub truncations: Vec<(usize, usize)>,
 }
 
 #[derive(Debug, Clone)]
@@ -568,21 +571,30 @@ impl<'p> Emitter<'p> {
         }
     }
 
-    fn record_arg_list(&mut self, class: &str, name_range: (usize, usize), last_arg: Option<(usize, usize)>, insert_at: usize, has_list: bool, positional: usize, named: usize) {
-        let (params, required) = match self.classes.get(class) {
+    fn record_arg_list(&mut self, class: &str, name_range: (usize, usize), last_arg: Option<(usize, usize)>, insert_at: usize, has_list: bool, positional: usize, named: usize, arg_starts: &[usize]) {
+        let (params, required, no_default) = match self.classes.get(class) {
             Some(r) => {
                 let t = &self.recs[*r].targs;
-                (t.len(), t.iter().filter(|(_, d)| !self.targ_has_default.contains(d)).count())
+                let nd: Vec<bool> = t.iter().map(|(_, d)| !self.targ_has_default.contains(d)).collect();
+                (t.len(), nd.iter().filter(|x| **x).count(), nd)
             }
-            None => (0, 0),
+            None => (0, 0, vec![]),
         };
-        self.out.arg_lists.push(ArgList { file: self.file, name_range, last_arg, insert_at, has_list, positional, named, params, required });
+        let mut truncations = Vec::new();
+        if named == 0 && has_list {
+            for k in 1..arg_starts.len() {
+                if no_default.iter().skip(k).any(|x| *x) {
+                    truncations.push((arg_starts[k], insert_at));
+                }
+            }
+        }
+        self.out.arg_lists.push(ArgList { file: self.file, name_range, last_arg, insert_at, has_list, positional, named, params, required, truncations });
     }
 
     fn class_args(&mut self, class: &str, name_range: (usize, usize), args: &[E], named: &[(String, E)]) {
         if args.is_empty() && named.is_empty() {
             let at = self.pos();
-            self.record_arg_list(class, name_range, None, at, false, 0, 0);
+            self.record_arg_list(class, name_range, None, at, false, 0, 0, &[]);
             return;
         }
         let params: Vec<(String, Ty)> = self
@@ -594,8 +606,10 @@ impl<'p> Emitter<'p> {
         self.w("<");
         let mut first = true;
         let mut last_arg = None;
+        let mut arg_starts: Vec<usize> = Vec::new();
         for (i, a) in args.iter().enumerate() {
             let sep_start = self.pos();
+            arg_starts.push(sep_start);
             if !first {
                 self.w(", ");
             }
@@ -623,14 +637,14 @@ impl<'p> Emitter<'p> {
         let close = self.pos();
         self.w(">");
         let _ = open;
-        self.record_arg_list(class, name_range, if named.is_empty() { last_arg } else { None }, close, true, args.len(), named.len());
+        self.record_arg_list(class, name_range, if named.is_empty() { last_arg } else { None }, close, true, args.len(), named.len(), &arg_starts);
     }
 
     fn mc_args(&mut self, multiclass: &str, name_range: (usize, usize), args: &[E]) {
         let (params, required) = self.mc_params.get(multiclass).copied().unwrap_or((0, 0));
         if args.is_empty() {
             let at = self.pos();
-            self.out.arg_lists.push(ArgList { file: self.file, name_range, last_arg: None, insert_at: at, has_list: false, positional: 0, named: 0, params, required });
+            self.out.arg_lists.push(ArgList { file: self.file, name_range, last_arg: None, insert_at: at, has_list: false, positional: 0, named: 0, params, required, truncations: vec![] });
             return;
         }
         self.w("<");
@@ -645,7 +659,7 @@ impl<'p> Emitter<'p> {
         }
         let close = self.pos();
         self.w(">");
-        self.out.arg_lists.push(ArgList { file: self.file, name_range, last_arg, insert_at: close, has_list: true, positional: args.len(), named: 0, params, required });
+        self.out.arg_lists.push(ArgList { file: self.file, name_range, last_arg, insert_at: close, has_list: true, positional: args.len(), named: 0, params, required, truncations: vec![] });
     }
 
     fn bang_var(&mut self, name: &str) -> DeclId {
@@ -677,7 +691,7 @@ impl<'p> Emitter<'p> {
                 if args.is_empty() && named.is_empty() {
                     let at = self.pos();
                     self.w("<>");
-                    self.record_arg_list(c, (name_start, at), None, at + 1, true, 0, 0);
+                    self.record_arg_list(c, (name_start, at), None, at + 1, true, 0, 0, &[]);
                 } else {
                     self.class_args(c, (name_start, self.pos()), args, named);
                 }
